@@ -463,6 +463,19 @@ func genC10(c *h.Ctx) {
 			}
 		}
 	}
+	// region astral_subject: BMP and astral characters before and after the match, every operation
+	{
+		A := "\U0001F600"
+		for _, p := range []string{"x", ".", "^.$", "[^a]", `\W`, `\S+`, "a*", "(x)|(b)", A, A + "+", "[" + A + "]", "[^" + A + "]x", "x$", `\bx`} {
+			for _, s := range []string{A, A + "x", "a" + A + "xb", "\u00e9" + A + "x" + A + "c", "x" + A, A + A + "xx", "ax"} {
+				for _, st := range []string{"e", "t", "m", "s", "rF", "rK:" + hexTok("$&"), "rS:" + hexTok("[$`|$&|$']"), "p:u", "p:2", "L:i2,e", "L:i3,e", "L:i1,e,e", "e,e,e"} {
+					for _, fl := range []string{"", "g"} {
+						c.Add("x "+hexTok(p)+" "+hexTok(fl)+" "+hexTok(s)+" "+st, "x:astral")
+					}
+				}
+			}
+		}
+	}
 	// histories
 	for i := 0; i < c.N(30000, 1500000); i++ {
 		p := g.pattern()
